@@ -2382,3 +2382,28 @@ package main
 //@   ensures scope-restored: result.E0.scope == ps0.scope
 //@   at after call psRegTypeVars#0: L = glob(typeregs)
 //@   at before call parseCaseDefs#0: PC = $0
+
+// instantiating a record registers every field of its definition, names in order, for exactly the type returned
+//@ func GenRecordType
+//@   props C03 C09
+//@   modifies maps
+//@   ghost RI RecordTypeInfo
+//@   ghost RT RecordType
+//@   panics may
+//@   ensures registered-for-result: RT == result && result.Name == rf.Name && result.Targs == stlist
+//@   ensures all-fields: len(RI.Fields) == len(rf.Fields)
+//@   ensures field-names-in-order: forall k int :: 0 <= k && k < len(rf.Fields) ==> RI.Fields[k].Name == rf.Fields[k].Name
+//@   at before call updateRecInfo#0: RI = $1
+//@   at before call updateRecInfo#0: RT = $0
+
+// a record literal of a generic record: one FRESH type variable per type parameter (they are unified with the
+// field values afterwards), in parameter order
+//@ func GenRecordTypeByTgen
+//@   props C03
+//@   modifies maps
+//@   panics may
+//@   ensures one-fresh-variable-per-type-parameter: calls(tvgen) == old(calls(tvgen)) + len(rf.Tparams)
+//@   ensures instantiates-the-factory: result.Name == rf.Name && len(result.Targs) == len(rf.Tparams)
+//@   inline-call slice.Map#0
+//@   loop slice.Map#0/0 index i:
+//@     invariant generated-so-far: calls(tvgen) == old(calls(tvgen)) + i && len(res) == i
